@@ -74,6 +74,8 @@ type coreSim struct {
 	rcvWndMax [2]uint32 // largest receive window configured so far
 	shrunk    [2]bool   // the application lowered its receive window below its backlog (profile shrinkWnd)
 	txTime    [2]uint32 // ms the output callback of endpoint e blocks per datagram (a slow link; 0: instantaneous)
+	probeSeen bool
+	probeRel  uint32
 	owesWins  [2]bool   // Recv made room in a full delivery queue and no WINS segment has been emitted since
 }
 
@@ -137,6 +139,11 @@ func segList(r *RingBuffer[segment], f func(*segment) string) string {
 
 // state logs the projection of endpoint e's internal state.
 func (s *coreSim) state(e int) {
+	if !s.probeSeen && s.k[e].ts_probe != 0 {
+		// the first probe deadline of the history, relative to the clock offset (C12 re-runs the history
+		// with the clock shifted so that this deadline is exactly 0)
+		s.probeSeen, s.probeRel = true, s.k[e].ts_probe-s.cfg.Clock
+	}
 	if s.lg == nil {
 		return
 	}
